@@ -127,3 +127,4 @@ def worker_threads_rule(ctx):
     ctx.import_rules("C02", r"^atomic-option/")
     ctx.import_rules("C13", r"^fwd/join-set-panic-data|^pooled-stack-only-for-default-size|^own-stack-for-other-sizes")
     shared.worker_run_budget_rules(ctx)
+    shared.yield_api_forwarding(ctx)
